@@ -89,7 +89,7 @@ theorem takeDigits_head_zero (r : Nat) (l : List Nat) (h : 0 < (takeDigits r l).
         rw [this] at hd; simpa using hd.symm
 
 theorem prefixPhase_none {c : Cfg} (h : c.basePrefix = 0) (b : Bytes) : prefixPhase c b = .ok (false, b) := by
-  simp [prefixPhase, h, pure, Except.pure]
+  simp [prefixPhase, prefixPhaseCurrent, prefixPhaseRepaired, h, pure, Except.pure]
 
 /-- the integer component -/
 theorem integerPhase_spec {c : Cfg} (hs : Std c) (b : Bytes) (hb : ∀ x ∈ b.slc, x < 256) :
